@@ -78,7 +78,12 @@ class MockInliner:
                 # lineno is the (1-based) line of the text, so lineno - 1 lines precede it
                 self._renderer.nested_render_text(text, lineno - 1, inline=True)
 
-        return container.children, []
+        # as in rST, warnings raised while parsing the text are not part of its nodes:
+        # callers place them after the element (and may name it by its ``astext()``)
+        messages = list(container.findall(nodes.system_message))
+        for message in messages:
+            message.parent.remove(message)
+        return container.children, messages
 
     def __getattr__(self, name: str):
         """This method is only be called if the attribute requested has not
